@@ -127,6 +127,88 @@ type s1run struct {
 	roots    map[ssa.Value]string // extra tracked slice values (A2b): value -> pseudo location
 	rootAddr map[addrKeyT]string  // addresses a root value is stored into: loads from them alias the root
 	rootEsc  map[string]string    // pseudo location -> where it was stored into other memory unwritten
+	assume   map[ssa.Value]bool   // boolean specialisation: edges contradicting these values are dead
+}
+
+// edgeDead: under the run's assumptions the edge p -> b is never taken.
+func (r *s1run) edgeDead(p, b *ssa.BasicBlock) bool {
+	if len(r.assume) == 0 || len(p.Succs) != 2 {
+		return false
+	}
+	iff, ok := p.Instrs[len(p.Instrs)-1].(*ssa.If)
+	if !ok {
+		return false
+	}
+	cond := iff.Cond
+	neg := false
+	for {
+		if u, ok := cond.(*ssa.UnOp); ok && u.Op == token.NOT {
+			cond = u.X
+			neg = !neg
+			continue
+		}
+		break
+	}
+	v, ok := r.assume[cond]
+	if !ok {
+		return false
+	}
+	if neg {
+		v = !v
+	}
+	// v true: only Succs[0] is taken
+	if v {
+		return b == p.Succs[1] && p.Succs[0] != p.Succs[1]
+	}
+	return b == p.Succs[0] && p.Succs[0] != p.Succs[1]
+}
+
+// splitCandidates: boolean values tested (possibly negated) in at least two blocks and defined
+// outside every loop (so that they have one value per call).
+func splitCandidates(fn *ssa.Function) []ssa.Value {
+	count := map[ssa.Value]int{}
+	for _, b := range fn.Blocks {
+		iff, ok := b.Instrs[len(b.Instrs)-1].(*ssa.If)
+		if !ok {
+			continue
+		}
+		cond := iff.Cond
+		for {
+			if u, ok := cond.(*ssa.UnOp); ok && u.Op == token.NOT {
+				cond = u.X
+				continue
+			}
+			break
+		}
+		count[cond]++
+	}
+	inLoop := map[*ssa.BasicBlock]bool{}
+	for _, b := range fn.Blocks {
+		if li := loopOf(b); li != nil {
+			for bb := range li.body {
+				inLoop[bb] = true
+			}
+		}
+	}
+	var out []ssa.Value
+	for v, n := range count {
+		if n < 2 {
+			continue
+		}
+		switch x := v.(type) {
+		case *ssa.Parameter:
+			out = append(out, v)
+		case ssa.Instruction:
+			if !inLoop[x.Block()] {
+				out = append(out, v)
+			}
+		}
+	}
+	sort.Slice(out, func(i, j int) bool { return out[i].Name() < out[j].Name() })
+	if len(out) > 4 {
+		out = out[:4]
+	}
+	return out
 }
 
 // vpath resolves a value to a location path relative to this.
@@ -1047,6 +1129,9 @@ func (r *s1run) run(entryW locSet) (mw locSet, retThis bool, mwRet locSet) {
 					if !ok {
 						continue
 					}
+					if r.edgeDead(p, b) {
+						continue
+					}
 					o2 := o
 					if le := r.loopExit[p]; le != nil && le[b] != nil {
 						o2 = o.clone()
@@ -1235,6 +1320,40 @@ func (s *s1) summary(fn *ssa.Function, param int, cons bool) *s1sum {
 		r.closeThis()
 		mw, retThis, mwRet := r.run(locSet{})
 		nsm := &s1sum{ue: r.ue, mw: mw, mayW: r.mayW, retThis: retThis, mwRet: mwRet, escapes: r.escapes}
+		// boolean specialisation: a location read before written only on a path that contradicts
+		// itself (if !b {fill} ... if b {use}) is not exposed; analyse the function once per value of a
+		// boolean that is tested in several places and keep the union of the exposed reads
+		if len(nsm.ue) > 0 {
+			for _, cand := range splitCandidates(fn) {
+				var parts []*s1sum
+				for _, val := range []bool{true, false} {
+					r2 := s.newRun(fn, st, cons)
+					r2.this[pv] = true
+					r2.closeThis()
+					r2.assume = map[ssa.Value]bool{cand: val}
+					mw2, rt2, mr2 := r2.run(locSet{})
+					parts = append(parts, &s1sum{ue: r2.ue, mw: mw2, mayW: r2.mayW, retThis: rt2, mwRet: mr2, escapes: r2.escapes})
+				}
+				ue := map[string]ueSite{}
+				for _, pt := range parts {
+					for l, site := range pt.ue {
+						if _, ok := ue[l]; !ok {
+							ue[l] = site
+						}
+					}
+				}
+				better := len(ue) < len(nsm.ue)
+				for l := range ue {
+					if _, ok := nsm.ue[l]; !ok {
+						better = false
+					}
+				}
+				if better {
+					mwc := locInter(parts[0].mw, parts[1].mw)
+					nsm = &s1sum{ue: ue, mw: mwc, mayW: nsm.mayW, retThis: nsm.retThis, mwRet: nsm.mwRet, escapes: nsm.escapes}
+				}
+			}
+		}
 		stable := sm != nil && len(sm.ue) == len(nsm.ue) && locEq(sm.mw, nsm.mw)
 		sm = nsm
 		s.prov[k] = sm
